@@ -524,7 +524,7 @@ pub fn stages(ctx: &Ctx) -> Vec<Stage> {
         let h0 = rng.r(0.02, 0.1);
         real_ladder(rep, solver, &s, span, mode, h0);
     }));
-    let nc = ctx.tier.pick(140, 1_400);
+    let nc = ctx.tier.pick(350, 2_100);
     st.push(Stage::new("complex-ladders", nc, move |i, rep| {
         let mut rng = Rng::for_case(seed, "c04-complex", i);
         let solver = Solver::ALL[(i % 7) as usize];
@@ -534,7 +534,7 @@ pub fn stages(ctx: &Ctx) -> Vec<Stage> {
         let h0 = rng.r(0.02, 0.1);
         complex_ladder(rep, solver, &p, span, h0);
     }));
-    let nsd = ctx.tier.pick(210, 7_000);
+    let nsd = ctx.tier.pick(700, 7_000);
     st.push(Stage::new("static-vs-dynamic", nsd, move |i, rep| {
         let mut rng = Rng::for_case(seed, "c04-sd", i);
         let solver = Solver::ALL[(i % 7) as usize];
